@@ -279,6 +279,8 @@ def r7(prog, run):
                 if dn.get('k') == 'call' and f.cname(dn) in ('std::find_if', 'std::ranges::find_if'):
                     for a in dn.get('args', []):
                         an = f.nodes[f.skip(a)]
+                        if an['k'] == 'var' and an.get('vk') == 'local' and f.single_def(an['decl']) is not None:
+                            an = f.nodes[f.skip(f.single_def(an['decl']))]      # a named predicate: const auto isWanted = [&](...) {...};
                         if an['k'] == 'lambda':
                             for lam in prog.lambda_fns(f, an):
                                 rets = [rn for _, rn in lam.returns() if 'e' in rn]
@@ -398,17 +400,41 @@ def r6(prog, run):
             bo = f.binop(p) if p is not None else None
             arith = bo is not None and bo[0] in ('-', '+', '<', '<=', '>', '>=', '==', '!=', '/', '%')
             minmax = pn is not None and pn['k'] == 'call' and (f.sym(pn) or {}).get('name') in ('qMin', 'qMax', 'min', 'max', 'qBound')
-            # a local initialised from the size and then used in arithmetic counts as well
+            # a local initialised from the size: what counts are the uses of that local
+            sites = [(i, p)]
             if pn is not None and pn['k'] == 'decl':
-                arith = True
+                vdecl = [d['var'] for d in pn['decls'] if d.get('init') is not None and f.skip(d['init']) in (f.skip(i), f.skip(j))]
+                sites = []
+                for u, un in enumerate(f.nodes):
+                    if un['k'] == 'var' and vdecl and un.get('decl') == vdecl[0]:
+                        ju, pu = u, par.get(u)
+                        while pu is not None and f.nodes[pu]['k'] in ('icast', 'cast'):
+                            ju, pu = pu, par.get(pu)
+                        bu = f.binop(pu) if pu is not None else None
+                        pnu = f.nodes[pu] if pu is not None else None
+                        if (bu is not None and bu[0] in ('-', '+', '<', '<=', '>', '>=', '==', '!=', '/', '%')) or \
+                                (pnu is not None and pnu['k'] == 'call' and (f.sym(pnu) or {}).get('name') in ('qMin', 'qMax', 'min', 'max', 'qBound')):
+                            sites.append((u, pu))
+                arith = bool(sites)
             if not (arith or minmax):
                 continue
             n_uses += 1
             run.instance(rid)
             me = f.fmt(i)
-            guarded = any(p2 is True and f.fmt(c) == me for c, p2 in f.atomic_assertions_at(i)) or \
-                any(p2 is False and f.binop(f.skip(c)) and f.binop(f.skip(c))[0] == '==' and me in f.fmt(c) and f.const_value(f.binop(f.skip(c))[2]) == ('int', 0)
-                    for c, p2 in f.atomic_assertions_at(i))
+
+            def is_guarded(use):
+                mine = {me, f.fmt(use), f.fmt(use, inline=False)}
+                for c, p2 in f.atomic_assertions_at(use):
+                    t = {f.fmt(c), f.fmt(c, inline=False)}
+                    if p2 is True and t & mine:
+                        return True
+                    bo2 = f.binop(f.skip(c))
+                    if bo2 and f.const_value(bo2[2]) == ('int', 0) and ({f.fmt(bo2[1]), f.fmt(bo2[1], inline=False)} & mine):
+                        if (bo2[0] == '==' and p2 is False) or (bo2[0] in ('!=', '>') and p2 is True):
+                            return True
+                return False
+            guarded = all(is_guarded(u) for u, _ in sites)
+            p = sites[0][1] if sites else p
             if guarded:
                 run.ok(rid, f.loc(i), '%s used behind a non-zero test in %s' % (me[-40:], f.display()[:40]))
             else:
